@@ -284,8 +284,12 @@ impl Ctx {
 }
 
 fn dgram_len(k: u32) -> usize {
-    if k % 2 == 0 { 2 } else { 1001 }
+    if k < 2 { 1001 } else { 2 }
 }
+/// The client's outgoing datagram buffer holds ONE of the 1001-byte datagrams (plus generous room
+/// for quinn's per-datagram bookkeeping): the second send_datagram_wait blocks until the first
+/// datagram has left, i.e. it depends on the DatagramsUnblocked wake-up.
+const DGRAM_SEND_BUF: usize = 1001 + 64;
 
 fn dgram(k: u32) -> Bytes {
     let mut v = vec![k as u8];
@@ -318,6 +322,8 @@ struct Shared {
     wflag: Vec<Cell<bool>>,
     blocked_writes: Cell<u64>,
     blocked_opens: Cell<u64>,
+    blocked_dgrams: Cell<u64>,
+    dgrams_got: Cell<u64>,
     specs: Vec<StreamSpec>,
 }
 
@@ -551,7 +557,8 @@ async fn run_program(env: &mut Option<Env>, prog: &Value, rep: &mut Report, trac
         max_bi: maxs,
         dgram_send_buf: None,
     };
-    let (c, s) = with_watchdog(WATCHDOG, connect_pair(&e.client, &e.server, e.certs.client(tp.build()), e.certs.server(tp.build())))
+    let ctp = Tp { dgram_send_buf: Some(DGRAM_SEND_BUF), ..tp };
+    let (c, s) = with_watchdog(WATCHDOG, connect_pair(&e.client, &e.server, e.certs.client(ctp.build()), e.certs.server(tp.build())))
         .await
         .ok_or("handshake watchdog")??;
 
@@ -592,6 +599,8 @@ async fn run_program(env: &mut Option<Env>, prog: &Value, rep: &mut Report, trac
         wflag: specs.iter().map(|_| Cell::new(false)).collect(),
         blocked_writes: Cell::new(0),
         blocked_opens: Cell::new(0),
+        blocked_dgrams: Cell::new(0),
+        dgrams_got: Cell::new(0),
         specs: specs.clone(),
     });
 
@@ -609,12 +618,14 @@ async fn run_program(env: &mut Option<Env>, prog: &Value, rep: &mut Report, trac
     }
     // datagrams run next to the streams
     let dg_done = Rc::new(Cell::new(false));
+    let ds_done = Rc::new(Cell::new(dgrams == 0));
     let mut dg_handles = vec![];
     if dgrams > 0 {
-        let (cx, cc) = (ctx.clone(), c.clone());
+        let (cx, cc, sh2, dsd) = (ctx.clone(), c.clone(), sh.clone(), ds_done.clone());
         dg_handles.push(compio_runtime::spawn(async move {
             for k in 0..dgrams {
-                match cc.send_datagram_wait(dgram(k)).await {
+                let pend = Cell::new(false);
+                match note_pending(&pend, &pend, &sh2.blocked_dgrams, cc.send_datagram_wait(dgram(k))).await {
                     Ok(()) => cx.dsent(k),
                     Err(e) => {
                         cx.err(0, "send_datagram", &e.to_string(), false);
@@ -622,8 +633,9 @@ async fn run_program(env: &mut Option<Env>, prog: &Value, rep: &mut Report, trac
                     }
                 }
             }
+            dsd.set(true);
         }));
-        let (cx, sc, done) = (ctx.clone(), s.clone(), dg_done.clone());
+        let (cx, sc, done, sh2) = (ctx.clone(), s.clone(), dg_done.clone(), sh.clone());
         dg_handles.push(compio_runtime::spawn(async move {
             let mut got = 0;
             while got < dgrams {
@@ -631,6 +643,7 @@ async fn run_program(env: &mut Option<Env>, prog: &Value, rep: &mut Report, trac
                     Ok(b) => {
                         cx.drecv(&b);
                         got += 1;
+                        sh2.dgrams_got.set(got as u64);
                     }
                     Err(_) => break, // the connection ended (end of program or the program's close)
                 }
@@ -653,6 +666,32 @@ async fn run_program(env: &mut Option<Env>, prog: &Value, rep: &mut Report, trac
         while !dg_done.get() && waited < 2000 {
             compio_runtime::time::sleep(Duration::from_millis(1)).await;
             waited += 1;
+        }
+        // the sender only ever waits for its own earlier datagram to leave the buffer
+        if !ds_done.get() && !ctx.0.borrow().closed {
+            compio_runtime::time::sleep(Duration::from_millis(1500)).await;
+            if !ds_done.get() {
+                ctx.0.borrow_mut().violation(
+                    "datagram-sender-not-woken",
+                    "the task blocked in send_datagram_wait() did not continue although the streams finished long ago".into(),
+                );
+            }
+        }
+        // Lost on the way is fine. Delivered to the server's connection (DATAGRAM frames counted by
+        // quinn-proto) but never handed to the blocked recv_datagram() is a lost wake-up.
+        if !dg_done.get() && !ctx.0.borrow().closed {
+            let arrived = s.stats().frame_rx.datagram;
+            if arrived > sh.dgrams_got.get() {
+                compio_runtime::time::sleep(Duration::from_millis(1500)).await;
+                if sh.dgrams_got.get() < arrived && !dg_done.get() {
+                    let d = format!(
+                        "{arrived} datagrams reached the server's connection but the task blocked in recv_datagram() \
+                         received only {} of them: it was not woken",
+                        sh.dgrams_got.get()
+                    );
+                    ctx.0.borrow_mut().violation("datagram-receiver-not-woken", d);
+                }
+            }
         }
     }
     let was_closed = {
@@ -704,7 +743,7 @@ async fn run_program(env: &mut Option<Env>, prog: &Value, rep: &mut Report, trac
 
     let l = ctx.0.borrow();
     for (what, desc) in &l.bad {
-        let ty = if what == "hang" { "hang" } else { "contract" };
+        let ty = if what == "hang" || what.starts_with("datagram-") && what.ends_with("-not-woken") { "hang" } else { "contract" };
         rep.problem(
             ty,
             json!({"site": "quic-program", "what": what, "closed": was_closed}),
@@ -720,6 +759,7 @@ async fn run_program(env: &mut Option<Env>, prog: &Value, rep: &mut Report, trac
     stats.events += l.trace.len() as u64;
     stats.blocked_writes += sh.blocked_writes.get();
     stats.blocked_opens += sh.blocked_opens.get();
+    stats.blocked_dgrams += sh.blocked_dgrams.get();
     stats.bytes += l.obs.values().map(|o| o.read).sum::<u64>();
     stats.dgrams_sent += l.dsent.len() as u64;
     stats.dgrams_recv += l.drecv.len() as u64;
@@ -740,6 +780,7 @@ struct Stats {
     events: u64,
     blocked_writes: u64,
     blocked_opens: u64,
+    blocked_dgrams: u64,
     bytes: u64,
     dgrams_sent: u64,
     dgrams_recv: u64,
@@ -785,6 +826,7 @@ pub async fn run(progs: Vec<Value>, trace_path: &str, rep: &mut Report) {
     rep.set("trace_events", json!(stats.events));
     rep.set("blocked_writes", json!(stats.blocked_writes));
     rep.set("blocked_opens", json!(stats.blocked_opens));
+    rep.set("blocked_dgram_sends", json!(stats.blocked_dgrams));
     rep.set("bytes_read", json!(stats.bytes));
     rep.set("dgrams_sent", json!(stats.dgrams_sent));
     rep.set("dgrams_recv", json!(stats.dgrams_recv));
